@@ -157,7 +157,7 @@ def specifiedScalars : List String := ["Int", "Float", "Boolean", "String", "ID"
 
 def intInRange (str : String) : Bool :=
   match str.toInt? with
-  | some n => decide (-2147483648 < n) && decide (n < 2147483647)
+  | some n => decide (-2147483648 ≤ n) && decide (n ≤ 2147483647)
   | none => false
 
 /-- does `named_type.parse_literal(node)` raise `ScalarParsingError`? (`none` = another exception escapes) -/
@@ -173,9 +173,9 @@ def parseLiteralFails (scalar : String) (v : Value) : Option Bool :=
       | "ID", .int _ => false
       | _, _ => true)
   else
-    -- custom scalar built from SDL: `parse(node.value)` is the identity; nodes without `.value` raise AttributeError
+    -- custom scalar built from SDL: `parse_literal = node.value`; nodes without `.value` are a TypeError
     match v with
-    | .obj _ | .list _ | .null | .var _ => none
+    | .obj _ | .list _ | .null | .var _ => some true
     | _ => some false
 
 /-- `_check_scalar(node)`: errors added (0/1), or `none` = crash -/
@@ -206,19 +206,16 @@ def enterRule (s : SchemaD) (fx : Fixes) (r : Rule) (n : Node) (ti : TI) (st : R
     if st.opNames.contains nm then (st.err r, true) else ({ st with opNames := nm :: st.opNames }, false)
   | loneAnonymousOperation, .document d =>
     let ops := d.defs.filter (·.isOp)
-    let anon := ops.any fun | .op _ none .. => true | _ => false
+    let anon := ops.any (·.isAnonOp)
     if anon && ops.length > 1 then (st.err r, true) else (st, false)
   | singleFieldSubscriptions, .operation kind _ _ _ sels =>
     (if kind == "subscription" && sels.length != 1 then st.err r else st, false)
   | knownTypeNames, .typeNode t => (if (typeFromAst s t).isNone then st.err r else st, false)
   | fragmentsOnCompositeTypes, .inline (some on) _ =>
-    match typeFromAst s (.named on) with
-    | none => ({ st with crash := some "UnknownType" }, false)
-    | some _ => if isComposite s on then (st, false) else (st.err r, true)
+    -- unknown type: `isComposite` is false; reported ("Unknown type") and skipped as well
+    if isComposite s on then (st, false) else (st.err r, true)
   | fragmentsOnCompositeTypes, .fragmentDef _ on _ =>
-    match typeFromAst s (.named on) with
-    | none => ({ st with crash := some "UnknownType" }, false)
-    | some _ => if isComposite s on then (st, false) else (st.err r, true)
+    if isComposite s on then (st, false) else (st.err r, true)
   | variablesAreInputTypes, .varDef v =>
     (match typeFromAst s v.type with
       | none => st.err r
@@ -241,9 +238,8 @@ def enterRule (s : SchemaD) (fx : Fixes) (r : Rule) (n : Node) (ti : TI) (st : R
   | noUnusedFragments, .fragmentDef name _ _ => ({ st with nufFrags := name :: st.nufFrags }, false)
   | noUnusedFragments, .spread name _ => ({ st with nufUsed := name :: st.nufUsed }, false)
   | possibleFragmentSpreads, .document d =>
-    let fds := fragDefs d
-    if fds.any fun f => (typeFromAst s (.named f.2.1)).isNone then ({ st with crash := some "UnknownType" }, false)
-    else ({ st with pfsTypes := fds.foldl (fun m f => AL.set m f.1 f.2.1) st.pfsTypes }, false)
+    let fds := (fragDefs d).filter fun f => (typeFromAst s (.named f.2.1)).isSome
+    ({ st with pfsTypes := fds.foldl (fun m f => AL.set m f.1 f.2.1) st.pfsTypes }, false)
   | possibleFragmentSpreads, .spread name _ =>
     let parent : Option String :=
       if fx.v10 then ti.parentType
